@@ -956,6 +956,11 @@ class Walker:
                 self.bind_pat(q, _ite_project(term, i), K)
         elif k == "PRef":
             self.bind_pat(p["p"], term, K)
+        elif k == "PTuple" and term is not None and term[0] == "call" and all(q.get("k") in ("PBind", "PWild") for q in p["ps"]):
+            # `let (a, b) = f(..)`: the bindings are the projections of the call's value
+            for i, q in enumerate(p["ps"]):
+                if q.get("k") == "PBind":
+                    self.bind_pat(q, ("field", term, str(i)), K)
         else:
             self.bind_pat_opaque(p)
 
